@@ -8,6 +8,9 @@ arithmetic that is not an algebraic identity breaks one of these lemmas.
 import Pandora.Gen.Schedule
 import Pandora.Proofs.LineMath
 
+set_option linter.unusedTactic false
+set_option linter.unusedSimpArgs false
+
 namespace Pandora.Bridge.Schedule
 open Pandora Pandora.Gen.Schedule Pandora.Proofs.LineMath
 
@@ -23,11 +26,22 @@ theorem secs_mul (D : ℤ) : secs D * 1000000000 = (D : ℝ) := by unfold secs; 
 
 theorem NewOnce_eq (n : ℤ) : NewOnce n = Sched.doAt 0 n (fun _ => 0) := rfl
 
+/-- `int64(math.Trunc(x))`, `int64(float64(int64(x)))`: truncating twice is truncating once -/
+theorem f2i_cast_f2i (x : ℝ) : Go.f2i ((Go.f2i x : ℤ) : ℝ) = Go.f2i x := by
+  unfold Go.f2i
+  split_ifs with h1 h2 h2
+  · exact Int.floor_intCast _
+  · exact absurd (by exact_mod_cast Int.floor_nonneg.mpr h1 : (0:ℝ) ≤ ((⌊x⌋ : ℤ) : ℝ)) h2
+  · exact Int.floor_intCast _
+  · exact Int.ceil_intCast _
+
 theorem NewConst_eq (ops : ℝ) (D : ℤ) (h : 0 ≤ ops) :
     NewConst ops D = Sched.doAt D (Go.f2i (ops * secs D)) (fun i => Go.f2i ((i : ℝ) * (1000000000 / ops))) := by
   unfold NewConst constDoAt secs
+  schedule_aux_unfold
   have : ¬ ops < 0 := not_lt.mpr h
-  simp only [this, if_false]
+  try simp only [this, if_false]
+  try simp only [f2i_cast_f2i]
   -- up to commutative-ring identities of the two float expressions (a reordering of factors is not a change)
   all_goals
     refine congrArg₂ (Sched.doAt D) ?_ ?_
@@ -38,15 +52,16 @@ theorem NewConst_eq (ops : ℝ) (D : ℤ) (h : 0 ≤ ops) :
 noncomputable def slope (f t : ℝ) (D : ℤ) : ℝ := (t - f) / secs D
 
 theorem NewLine_flat (f : ℝ) (D : ℤ) : NewLine f f D = NewConst f D := by
-  unfold NewLine; simp
+  unfold NewLine; schedule_aux_unfold; simp
 
 theorem NewStep_flat (f : ℝ) (s D : ℤ) : NewStep f f s D = NewConst f D := by
-  unfold NewStep; simp
+  unfold NewStep; schedule_aux_unfold; simp
 
 theorem NewStep_eq (f t : ℝ) (s D : ℤ) (h : f ≠ t) :
     NewStep f t s D = Sched.composite ((Go.loopLE f t (s : ℝ)).map (fun r => NewConst r D)) := by
   unfold NewStep
-  simp only [h, if_false, List.nil_append]
+  schedule_aux_unfold
+  simp only [h, h.symm, if_false, List.nil_append]
   congr 1
   induction (Go.loopLE f t (s:ℝ)) with
   | nil => rfl
